@@ -4,6 +4,9 @@ from __future__ import annotations
 
 import asyncio
 import ipaddress
+import os
+import sys
+import time
 from typing import Any
 from unittest import mock
 
@@ -393,7 +396,7 @@ class _TooLong(Exception):
 _SLOW = [0]
 
 
-def _cpu_bounded(f: Any, seconds: float = 1.0) -> Any:
+def _cpu_bounded(f: Any, seconds: float = 10.0) -> Any:
     """f() under a CPU-time budget (ITIMER_VIRTUAL counts this process's own CPU time, so machine load does not matter): an
     expression that denotes a handful of numbers must not expand into billions."""
     import signal
@@ -421,11 +424,28 @@ def _cpu_bounded(f: Any, seconds: float = 1.0) -> Any:
 def check(case: dict[str, Any]) -> list[tuple[str, str]]:
     if _SLOW[0] >= 5:
         return []  # this process has already reported five runaway cases: the rest of its work is skipped, not waited for
+    t0_ = time.process_time()
     try:
-        return _cpu_bounded(lambda: _check(case), 1.5)
-    except _TooLong:
+        res_ = _cpu_bounded(lambda: _check(case), 20.0)
+        _slow_note(case, t0_)
+        if time.process_time() - t0_ > 6.0:
+            _SLOW[0] += 1  # (e.g. a runaway that ended in MemoryError under the address-space cap)
+        return res_
+    except MemoryError:
+        import gc
+
+        gc.collect()
         _SLOW[0] += 1
-        return [(f"C20/{case.get('kind', '?')}/takes-forever", f"{str(case)[:200]}: no result after 1.5 s of CPU time")]
+        return [(f"C20/{case.get('kind', '?')}/takes-forever", f"{str(case)[:200]}: the result does not fit into 3 GB of memory")]
+    except _TooLong:
+        _slow_note(case, t0_)
+        _SLOW[0] += 1
+        return [(f"C20/{case.get('kind', '?')}/takes-forever", f"{str(case)[:200]}: no result after 20 s of CPU time")]
+
+
+def _slow_note(case: dict[str, Any], t0_: float) -> None:
+    if os.environ.get("VF_C20_PROFILE") and time.process_time() - t0_ > 0.4:
+        print(f"C20-SLOW {time.process_time() - t0_:.2f}s {str(case)[:300]}", file=sys.stderr, flush=True)
 
 
 def _check(case: dict[str, Any]) -> list[tuple[str, str]]:
@@ -532,7 +552,7 @@ def _check(case: dict[str, Any]) -> list[tuple[str, str]]:
             try:
                 got = _cpu_bounded(f)
             except _TooLong:
-                out.append((f"C20/ranges/{name}/takes-forever", f"{expr!r}: no result after 2 s of CPU time (expected {len(expect)} numbers)"))
+                out.append((f"C20/ranges/{name}/takes-forever", f"{expr!r}: no result after 10 s of CPU time (expected {len(expect)} numbers)"))
                 return out
             except Exception as e:  # noqa: BLE001
                 out.append((f"C20/ranges/{name}/raises", f"{expr!r}: {type(e).__name__}: {e}"))
@@ -549,7 +569,7 @@ def _check(case: dict[str, Any]) -> list[tuple[str, str]]:
             try:
                 got = _cpu_bounded(f)
             except _TooLong:
-                out.append((f"C20/ranges2d/{name}/takes-forever", f"{expr!r}: no result after 2 s of CPU time"))
+                out.append((f"C20/ranges2d/{name}/takes-forever", f"{expr!r}: no result after 10 s of CPU time"))
                 return out
             except Exception as e:  # noqa: BLE001
                 out.append((f"C20/ranges2d/{name}/raises", f"{expr!r}: {type(e).__name__}: {e}"))
